@@ -304,6 +304,9 @@ pub fn run(ctx: &mut Ctx) {
         Ok(())
     });
 
+    if crate::util::violated(ctx) {
+        return;
+    }
     let strat = (
         0..SPROGS.len(),
         proptest::collection::vec((0u8..3, -5i32..20), 5..=10),
